@@ -450,6 +450,9 @@ class TestSuiteWriter:
         # working; mark the file so the emitted import gets a coverage comment and
         # a `# noqa: F401` (nothing in the file otherwise references the import).
         coverage_by_import_only = not functions
+        if not needs_pytest:
+            # Float assertions are rendered with pytest.approx and need the import, too.
+            needs_pytest = any("pytest." in cst.Module(body=[func]).code for func in functions)
         if coverage_by_import_only:
             functions = [cst.parse_statement("def test_empty():\n    pass\n")]
 
